@@ -167,6 +167,27 @@ theorem lookup_runFrom (e : Exports) (h : List Op) (s : Str) :
 theorem lookup_run (h : List Op) (s : Str) : lookup (run h) s = exportedAfter h s := by
   rw [run_eq_runFrom, lookup_runFrom]; rfl
 
+/-! ### several handlers -/
+
+theorem multi_runFrom (T : Multi.Tables) (h : List (Nat × Op)) (k : Nat) :
+    (h.foldl (fun T kop => (Multi.step T kop.1 kop.2).tables) T) k = runFrom (T k) (Multi.proj k h) := by
+  induction h generalizing T with
+  | nil => rfl
+  | cons kop h ih =>
+    obtain ⟨j, op⟩ := kop
+    simp only [List.foldl_cons]
+    rw [ih]
+    by_cases hj : j = k
+    · subst hj
+      simp [Multi.proj, Multi.step, Multi.set, runFrom]
+    · have hb : (j == k) = false := by simpa using hj
+      have hkj : ¬ k = j := fun e => hj e.symm
+      simp [Multi.proj, Multi.step, Multi.set, hb, hkj]
+
+/-- Handler `k`'s table after an interleaved history is the table of the calls made on `k` alone. -/
+theorem multi_run_proj (h : List (Nat × Op)) (k : Nat) : Multi.run h k = run (Multi.proj k h) := by
+  rw [Multi.run, multi_runFrom, run_eq_runFrom]; rfl
+
 /-! ### spec: histories -/
 
 theorem foldl_visible_some (h : List Op) (s : Str) (cur : Option Obj) (o : Obj)
